@@ -205,7 +205,12 @@ func init() {
 	parseOutside := []string{"token sequences longer than the bounds", "expressions longer than N bytes at byte level", "integers that do not fit int64 (grammatical, rejected: implementation limit)"}
 	specs["C04"] = &CheckSpec{Prop: "C04", Level: "model_checking",
 		Jobs: func(tier string) []*Job {
-			return append(parseJobs([]string{"C04"}, tier), lexJobs([]string{"C04"}, "VerifCompile", tier)...)
+			cj := lexJobs([]string{"C04"}, "VerifCompile", tier)
+			for _, j := range cj {
+				j.Params["grammar"] = "1"
+				j.Unwind = 64
+			}
+			return append(parseJobs([]string{"C04"}, tier), cj...)
 		},
 		Bounds: parseBounds, Assumptions: commonAssumptions, Outside: parseOutside,
 		Explain: "the real Parser.Parse on symbolic token sequences: accepted iff the CYK circuit of the JMESPath grammar accepts, and every accepted AST is well formed; Compile on symbolic bytes",
